@@ -657,3 +657,7 @@ def run(ctx: Ctx) -> None:
     pcadv_rule(ctx, imap)
     ecall_rule(ctx)
     done_rule(ctx, "R01.done")
+    # loads and stores end in the flat byte memory: wrap-around, range check and little-endian (de)composition (C18's rules)
+    from .c18 import le_rule, range_rule
+    range_rule(ctx, "R01.mem")
+    le_rule(ctx, "R01.le")
